@@ -89,6 +89,11 @@ def cases(run: Run):
         ks = rng.sample(range(1, 12), 3)
         imps = [{"t": k * dt, "dv": [0.0, 0.01, 0.002]} for k in ks[:2]] + [{"t": ks[2] * dt + rng.choice([-1, 1, 7]), "dv": [0.0, -0.01, 0.0]}]
         out.append({"op": "scn-impulse", "start": start.isoformat(), "dt": dt, "N": max(im["t"] for im in imps) // dt + 2, "imps": imps, "seed": rng.randint(1, 999)})
+    # an event at the very last instant of the simulated span ("up to and including the last step"): the scenario is configured to stop there, and is run to there
+    for start, dt, k in ((datetime(2018, 12, 1, 12, 0, 0), 60, 5), (datetime(2018, 12, 1, 12, 0, 0), 60, 6), (datetime(2021, 3, 30, 12, 0, 0), 300, 9),
+                         (rand_start(rng), rng.choice([60, 30, 120]), rng.randint(2, 9)))[: run.n(4, 4)]:
+        out.append({"op": "scn-impulse", "start": start.isoformat(), "dt": dt, "N": k, "at_stop": True, "seed": rng.randint(1, 999),
+                    "imps": [{"t": k * dt, "dv": [0.0, 0.01, 0.002]}, {"t": (k - 1) * dt, "dv": [0.0, -0.01, 0.001]}]})
     # several kinds of event in one step: a target that joins through an addition event and manoeuvres later in that same step (or in a later one)
     for _ in range(run.n(1, 6)):
         dt = rng.choice([60, 60, 120])
@@ -305,7 +310,7 @@ def impl_scenario_impulse(c):
         when = scen.iso(start + timedelta(seconds=im["t"]))
         events.append({"scope": "agent_propagation", "scope_instance_id": 10001 + j, "start_time": when, "end_time": when, "event_type": "impulse",
                        "thrust_vector": im["dv"], "thrust_frame": "eci", "planned": False})
-    cfg = scen.scenario_cfg(start, dt, dt * (N + 1), [scen.engine_cfg(1, targets, sensors)], truth_only=True, seed=c.get("seed", 1), events=events, prop="two_body")
+    cfg = scen.scenario_cfg(start, dt, dt * (N if c.get("at_stop") else N + 1), [scen.engine_cfg(1, targets, sensors)], truth_only=True, seed=c.get("seed", 1), events=events, prop="two_body")
     app = scen.build(cfg)
     try:
         for _ in range(N):
@@ -336,7 +341,18 @@ def oracle_scenario_impulse(c, impl):
         d = {k: float(np.linalg.norm(f[3:] - np.array(r)[3:])) for k, r in o["refs"].items()}
         if not d[1] <= 1e-7:
             times = min(d, key=d.get)
-            fails.append(("scenario-impulse", f"start {c['start']} dt {c['dt']}: the impulse of target {tid} at +{o['t']} s was applied {times} time(s) in a real scenario run "
+            key = "scenario-impulse"
+            if times == 0 and o["t"] == c["N"] * c["dt"]:
+                # known finding (known_findings.json): the impulse's scenario time is rebuilt from Julian dates; when that lands a few microseconds AFTER the
+                # final epoch the impulse is queued for a step that never comes. Only that case is the known one: same instant, rounding before or onto
+                # the epoch, must be applied.
+                from resonaate.physics.time.stardate import datetimeToJulianDate
+
+                st = datetime.fromisoformat(c["start"])
+                t_jd = float(datetimeToJulianDate(st + timedelta(seconds=o["t"])).convertToScenarioTime(datetimeToJulianDate(st)))
+                if t_jd > o["t"]:
+                    key = "scenario-impulse:at-stop-late"
+            fails.append((key, f"start {c['start']} dt {c['dt']}: the impulse of target {tid} at +{o['t']} s was applied {times} time(s) in a real scenario run "
                                               f"(final velocity is {d[1]:.3g} km/s from the once-applied reference, {d[times]:.3g} from the {times}x one)"))
     return fails
 
